@@ -491,6 +491,7 @@ func (e *Engine) propagate(hyps []*smt.Term, goal *smt.Term) ([]*smt.Term, *smt.
 		}
 		var nh []*smt.Term
 		seen := map[*smt.Term]bool{}
+		sb := c.NewSubst(m)
 		for _, h := range hyps {
 			var r *smt.Term
 			lit := h
@@ -498,12 +499,9 @@ func (e *Engine) propagate(hyps []*smt.Term, goal *smt.Term) ([]*smt.Term, *smt.
 				lit = h.Args[0]
 			}
 			if _, isLit := truth[lit]; isLit && (h.Op != smt.OAnd && h.Op != smt.OImplies && h.Op != smt.OForall) {
-				// keep the literal itself, but simplify inside it using the *other* literals
-				delete(m, lit)
-				r = c.Subst(h, m)
-				m[lit] = c.BoolC(truth[lit])
+				r = h // literal hypotheses are kept as they are
 			} else {
-				r = c.Subst(h, m)
+				r = sb.Apply(h)
 			}
 			if r != h {
 				changed = true
@@ -518,7 +516,7 @@ func (e *Engine) propagate(hyps []*smt.Term, goal *smt.Term) ([]*smt.Term, *smt.
 			}
 		}
 		hyps = nh
-		g2 := c.Subst(goal, m)
+		g2 := sb.Apply(goal)
 		if g2 != goal {
 			goal = g2
 			changed = true
@@ -551,14 +549,15 @@ func (e *Engine) propagate(hyps []*smt.Term, goal *smt.Term) ([]*smt.Term, *smt.
 		if len(sub) > 0 {
 			changed = true
 			var nh2 []*smt.Term
+			sb2 := c.NewSubst(sub)
 			for _, h := range hyps {
-				r := c.Subst(h, sub)
+				r := sb2.Apply(h)
 				if !r.IsTrue() {
 					nh2 = append(nh2, r)
 				}
 			}
 			hyps = nh2
-			goal = c.Subst(goal, sub)
+			goal = sb2.Apply(goal)
 		}
 		if !changed {
 			break
@@ -601,14 +600,58 @@ func (e *Engine) splitHyp(h *smt.Term, out *[]*smt.Term) {
 	}
 }
 
-func relevant(hyps []*smt.Term, goal *smt.Term, extra []*smt.Term) []*smt.Term {
-	// only versioned (havoc/loop) array symbols are subject to liveness
+// versionedArrs: the fresh (non-input) symbols of t, memoized per term. Relevance of
+// hypotheses is connectivity to the goal through these symbols.
+func (e *Engine) versionedArrs(t *smt.Term) []*smt.Term {
+	if r, ok := e.vaMemo[t]; ok {
+		return r
+	}
+	var out []*smt.Term
+	if t.Op == smt.OVar {
+		n := t.Name
+		base := strings.HasPrefix(n, "in$") || strings.HasPrefix(n, "heap$") || strings.HasPrefix(n, "mem$") || strings.HasPrefix(n, "g$") ||
+			strings.HasPrefix(n, "str$") || strings.HasPrefix(n, "pure$") || strings.HasPrefix(n, "gaddr$")
+		if !base {
+			out = []*smt.Term{t}
+		}
+	} else {
+		for _, a := range t.Args {
+			for _, v := range e.versionedArrs(a) {
+				dup := false
+				for _, o := range out {
+					if o == v {
+						dup = true
+						break
+					}
+				}
+				if !dup {
+					out = append(out, v)
+				}
+			}
+		}
+	}
+	e.vaMemo[t] = out
+	return out
+}
+
+// smallSize: tree size of t, cut off at limit.
+func smallSize(t *smt.Term, limit int) int {
+	n := 1
+	for _, a := range t.Args {
+		if n > limit {
+			return n
+		}
+		n += smallSize(a, limit-n)
+	}
+	return n
+}
+
+func (e *Engine) relevant(hyps []*smt.Term, goal *smt.Term, extra []*smt.Term) []*smt.Term {
+	// connectivity through fresh symbols; hypotheses over input symbols only are kept
 	arrVars := func(t *smt.Term) map[*smt.Term]bool {
 		out := map[*smt.Term]bool{}
-		for _, v := range smt.FreeVars(t) {
-			if v.Sort.K == smt.KArr && (strings.HasPrefix(v.Name, "havoc$") || strings.HasPrefix(v.Name, "loop$")) {
-				out[v] = true
-			}
+		for _, v := range e.versionedArrs(t) {
+			out[v] = true
 		}
 		return out
 	}
@@ -660,6 +703,13 @@ func relevant(hyps []*smt.Term, goal *smt.Term, extra []*smt.Term) []*smt.Term {
 		}
 	}
 	return out
+}
+
+func isAllocMap(a *smt.Term) bool {
+	for a.Op == smt.OStore {
+		a = a.Args[0]
+	}
+	return a.Op == smt.OVar && a.Name == "heap$$alloc"
 }
 
 func mentionsArrays(t *smt.Term) bool {
@@ -732,7 +782,7 @@ func (e *Engine) instantiate(hyps []*smt.Term, goal *smt.Term, skolems []*smt.Te
 			if t.Op == smt.OForall || t.Op == smt.OExists {
 				return
 			}
-			if t.Op == smt.OSelect && t.Args[1].Sort == smt.BV64 && t.Args[0].Sort.Elem.K != smt.KArr && t.Args[0].Sort.Elem != smt.Bool {
+			if t.Op == smt.OSelect && t.Args[1].Sort == smt.BV64 && t.Args[0].Sort.Elem.K != smt.KArr && !isAllocMap(t.Args[0]) {
 				gidx[t.Args[1]] = true
 			}
 			if t.Op == smt.OApp && t.Name == "sbyte" {
@@ -746,7 +796,7 @@ func (e *Engine) instantiate(hyps []*smt.Term, goal *smt.Term, skolems []*smt.Te
 		for _, h := range out {
 			// ground hypotheses contribute their index terms only when small (branch
 			// conditions on loaded values); instances from the previous round always do.
-			if round > 0 || smt.Size(h) <= 60 {
+			if round > 0 || smallSize(h, 60) <= 60 {
 				rec(h)
 			}
 		}
@@ -869,6 +919,7 @@ func (e *Engine) Discharge(obs []*Obligation, opts DischargeOpts) {
 	// scripts are built sequentially (the term context is not thread-safe)
 	var jobs []*job
 	scriptsOf := map[*Obligation][]string{}
+	tBuild := time.Now()
 	for _, ob := range obs {
 		var subs []subgoal
 		var sk []*smt.Term
@@ -895,7 +946,7 @@ func (e *Engine) Discharge(obs []*Obligation, opts DischargeOpts) {
 			if os.Getenv("GVC_DEBUG") != "" && strings.Contains(ob.Name, os.Getenv("GVC_DEBUG")) {
 				fmt.Fprintf(os.Stderr, "DEBUG %s #%d goal after: %s\n", ob.Name, ob.Ord, e.C.Show(sg.goal))
 			}
-			hy0 = relevant(hy0, sg.goal, sg.hyps)
+			hy0 = e.relevant(hy0, sg.goal, sg.hyps)
 			cases = append(cases, e.caseSplit(hy0, sg.goal, sk)...)
 		}
 		for _, sg := range cases {
@@ -936,6 +987,7 @@ func (e *Engine) Discharge(obs []*Obligation, opts DischargeOpts) {
 			ob.Result = &smt.Result{Status: "unsat", Solver: "simplifier"}
 		}
 	}
+	e.Stats["build-scripts-ms"] += int(time.Since(tBuild).Milliseconds())
 	for _, ob := range obs {
 		for i, sc := range scriptsOf[ob] {
 			jobs = append(jobs, &job{ob: ob, script: sc, nsub: len(scriptsOf[ob]), idx: i})
